@@ -214,6 +214,58 @@ example : Impl.scan geom Impl.fullReads (layout geom.marker [1, 2] ([13, 10] ++ 
     = .found (2 + geom.marker.length + 2) :=
   scan_skips_whitespace _ _ _ _ _ (by decide) (by decide) (by decide)
 
+/-! ## Packing into a target that already exists -/
+
+/-- pack.go opens the target with `os.Create` (or `O_TRUNC`): old content is discarded -/
+theorem pack_truncates : Ecal.Gen.C20.targetOpenTruncates = true := by decide
+
+/-- **The layout has no memory.** With a truncating open, whatever the target contained before —
+    nothing, an unrelated file of any length, or the result of an earlier pack of another project
+    onto another binary — after packing it is exactly `bin₂ ++ marker ++ zip₂`. -/
+theorem pack_overwrites (M old bin₁ zip₁ bin₂ zip₂ : List Nat) :
+    pack .truncate M (pack .truncate M old bin₁ zip₁) bin₂ zip₂ = layout M bin₂ zip₂ ∧
+    pack .truncate M old bin₂ zip₂ = layout M bin₂ zip₂ := ⟨rfl, rfl⟩
+
+/-- Without truncation an existing longer target keeps a non-empty stale tail behind the new
+    archive: the file is the layout of `zip ++ tail`, not of `zip`. -/
+theorem pack_keepOld_stale_tail (M old bin zip : List Nat) (h : (layout M bin zip).length < old.length) :
+    pack .keepOld M old bin zip = layout M bin (zip ++ old.drop (layout M bin zip).length) ∧
+    old.drop (layout M bin zip).length ≠ [] := by
+  constructor
+  · simp [pack, writeFrom0, layout, List.append_assoc]
+  · intro hnil
+    have := congrArg List.length hnil
+    simp only [List.length_drop, List.length_nil] at this
+    omega
+
+/-- … and the zip reader is then handed the archive PLUS the stale tail (which ends in the old
+    archive's end record): not the archive that was packed. Same hypotheses as `archive_exact`. -/
+theorem keepOld_archive_not_exact (rd : Nat → Nat → Nat) (old bin zip : List Nat) (c : Nat) (cs : List Nat)
+    (hzip : zip = c :: cs) (hc : isSkip c = false)
+    (hbin : ∀ j, j < bin.length → ¬ occ geom.marker (bin ++ geom.marker) j)
+    (h : (layout geom.marker bin zip).length < old.length) :
+    Impl.archive geom rd (pack .keepOld geom.marker old bin zip)
+      = some (zip ++ old.drop (layout geom.marker bin zip).length) ∧
+    zip ++ old.drop (layout geom.marker bin zip).length ≠ zip := by
+  obtain ⟨h1, h2⟩ := pack_keepOld_stale_tail geom.marker old bin zip h
+  constructor
+  · rw [h1]
+    exact archive_exact rd bin _ c (cs ++ old.drop (layout geom.marker bin zip).length)
+      (by rw [hzip]; rfl) hc hbin
+  · intro heq
+    have := congrArg List.length heq
+    simp only [List.length_append] at this
+    have : (old.drop (layout geom.marker bin zip).length).length = 0 := by omega
+    exact h2 (List.length_eq_zero_iff.mp this)
+
+/-- negative witness, two steps: a big project, then a small one into the same target, without
+    truncation — the file is not the layout of the second pack; with truncation it is -/
+theorem keepOld_two_step_witness :
+    pack .keepOld [10, 35, 10] (pack .keepOld [10, 35, 10] [] [1, 2] [80, 75, 9, 9, 9, 9, 80, 75, 5, 6]) [3] [80, 75, 5, 6]
+      ≠ layout [10, 35, 10] [3] [80, 75, 5, 6] ∧
+    pack .truncate [10, 35, 10] (pack .truncate [10, 35, 10] [] [1, 2] [80, 75, 9, 9, 9, 9, 80, 75, 5, 6]) [3] [80, 75, 5, 6]
+      = layout [10, 35, 10] [3] [80, 75, 5, 6] := by decide
+
 /-! ## The scanner before the repair (negative witness, reduced geometry)
 
 `Old.scan` is the loop as it was before fix a0bf548 (stride `b1`, `#` pre-filter, second read of
